@@ -53,20 +53,30 @@ package res
 //@   loop 3 decreases sl - si
 //@
 //@ # ---------------------------------------------------------------- Values: agrees with Matches on every name without '>'
+//@ ghostvar vent int
+//@ ghostvar vdol int
 //@ func (p Pattern) Values(s string) (m map[string]string, ok bool)
 //@   requires valid: pvalid0(string(p))
 //@   requires name: forall(k, 0, len(s), s[k] != '>')
-//@   modifies alloc, map:map[string]string
+//@   modifies alloc, map:map[string]string, ghost.vent, ghost.vdol
 //@   ensures sem: ok == pmatch(string(p), s, 0, 0)
 //@   ensures nomatch: imp(!ok, isNil(m))
 //@   # a '>' that is not the last character is excluded by the grammar
 //@   dead return3
 //@   # every entry of the result: the key is the text of a $-token of the pattern (without the $), the value is the name's text
 //@   # from the position reached to the end of that token of the name
+//@   # completeness: every $-token the scan passes gets its entry (vdol counts the $-tokens entered, vent the entries written);
+//@   # the counters are bookkeeping of one call and are put back at exit
+//@   ghost store po#1 after :: set vdol = vdol + 1
+//@   ghost mapupdate m#1 before :: assert entry.once: vent - old(vent) + 1 == vdol - old(vdol)
+//@   ghost mapupdate m#1 before :: set vent = vent + 1
+//@   ghost exit :: set vent = old(vent)
+//@   ghost exit :: set vdol = old(vdol)
 //@   ghost mapupdate m#1 before :: assert entry.key: 1 <= po && po <= pi && pi <= pl && p[po-1] == '$' && tokStart(string(p), po-1) && pi == tokEnd(string(p), po) && len(arg_key) == pi - po && forall(k, 0, pi - po, arg_key[k] == p[po+k])
 //@   ghost mapupdate m#1 before :: assert entry.value: 0 <= so && so <= si && si <= sl && si == tokEnd(s, so) && len(arg_value) == si - so && forall(k, 0, si - so, arg_value[k] == s[so+k])
 //@   loop 1 invariant 0 <= pi && pi <= pl && 0 <= si && si <= sl && pl == len(p) && sl == len(s)
 //@   loop 1 invariant hd: pi == pl || tokStart(string(p), pi) || p[pi] == '.'
+//@   loop 1 invariant every.dollar: vent - old(vent) == vdol - old(vdol)
 //@   loop 1 invariant carry: pmatch(string(p), s, 0, 0) == pmatch(string(p), s, pi, si)
 //@   loop 1 decreases pl - pi
 //@   loop 2 invariant loopentry(pi) <= pi && pi <= pl && pl == len(p) && tokEnd(string(p), loopentry(pi)) == tokEnd(string(p), pi)
